@@ -27,6 +27,8 @@ func runC07(c *Ctx, r *Report) {
 	r.Rule("R07.2", "shifts cannot panic: every shift with a non-constant count has an unsigned count type (or a dominating non-negativity test)")
 	checkShifts(c, r, "R07.2")
 
+	c07RoundTrips(c, r)
+
 	r.Rule("R07.3", "kernels match their cell: for every disposition table the kernel in cell (i,j) accepts operand kinds (i,j) — derived from the typed accesses in the kernel (kind-guard analysis)")
 	kg := runKindGuard(c, r, "R07.3", func(*DispTable) bool { return true })
 	var tabs []*DispTable
